@@ -13,7 +13,8 @@ abbrev SName := Pywbem.Model.Store.Name
   inst = {"c":str,"p":[{"n":str,"t":"…","a":bool,"v":val}]}
   path = {"c":str,"n":str|null,"h":str|null,"k":[[str,kv],…]}
   kv   = {"s":str} | {"i":"<decimal>"} | {"b":bool} | {"o":["tag",str]} | {"r":path with scalar keys}
-  val  = null | kv | {"a":[scalar|null,…]}
+  val  = null | kv | {"a":[scalar|null,…]} | {"e":[isClass,str classname,str text]}  (embedded object)
+  property declarations additionally carry "ei":str|null (EmbeddedInstance value) and "eo":bool (EmbeddedObject)
   Answer: {"outs":[out,…],"state":[{"name":str,"insts":[{"key":path,"path":path,"inst":inst}]}],
            "specAgrees":bool}     (specAgrees: the run of Spec/StoreSpec gives the same normalised outputs) -/
 
@@ -67,7 +68,13 @@ def parseVal (j : Json) : Option Val :=
     | Json.arr a => (a.toList.mapM (fun (x : Json) => match x with
         | Json.null => some (none : Option Scalar)
         | y => (parseScalar y).map some)).map Val.arr
-    | _ => (parseKV j).map Val.one
+    | _ =>
+      match getField j "e" with
+      | Json.arr e =>
+        (match e.toList with
+         | [Json.bool b, c, t] => do some (Val.emb b (← jsonToChars? c) (← jsonToChars? t))
+         | _ => none)
+      | _ => (parseKV j).map Val.one
 
 def parseProp (j : Json) : Option PropV := do
   let n ← getChars j "n"
@@ -84,7 +91,8 @@ def parseDecl (j : Json) : Option PropDecl := do
   let n ← getChars j "n"
   let t ← getChars j "t"
   let d ← parseVal (getField j "d")
-  some { name := n, ty := t, isArr := (getBool j "a").getD false, isKey := (getBool j "key").getD false, dflt := d }
+  some { name := n, ty := t, isArr := (getBool j "a").getD false, isKey := (getBool j "key").getD false, dflt := d,
+         embInst := optChars j "ei", embObj := (getBool j "eo").getD false }
 
 def parseCls (j : Json) : Option Cls := do
   let n ← getChars j "name"
@@ -138,6 +146,7 @@ def valToJson : Val → Json
   | .null => Json.null
   | .one v => kvToJson v
   | .arr xs => Json.mkObj [("a", Json.arr (xs.map (optToJson scalarToJson)).toArray)]
+  | .emb b c t => Json.mkObj [("e", Json.arr #[Json.bool b, cpsToJson c, cpsToJson t])]
 
 def propToJson (p : PropV) : Json :=
   Json.mkObj [("n", cpsToJson p.name), ("t", cpsToJson p.ty), ("a", p.isArr), ("v", valToJson p.val)]
